@@ -101,6 +101,7 @@ def gen_case(seed, tier):
             else r.choice([30, 60, 100]),
             'sched_seed': r.randint(0, 10 ** 9), 'segments': None,
             'calls': r.choice([1, 1, 2]),
+            'via_mapping': core.stream(seed, 'c18map').random() < 0.3,
             'exhaust_one': tier == 'thorough' and r.random() < 0.3,
             'exhaust_handover': tier == 'thorough' and r.random() < 0.5}
     if family == 'tree':
@@ -308,7 +309,10 @@ def make_template(case):
         d['dflt'] = 'D'
         if case.get('with_sub'):
             d['sub'] = cls(c17.SUB_SRC, dflt='sd')
-    t = cls(case['src'], **d)
+    if case.get('via_mapping'):
+        t = cls(case['src'], d)       # defaults as the mapping argument
+    else:
+        t = cls(case['src'], **d)
     if case['precooked']:
         try:
             t.cook()
@@ -413,7 +417,7 @@ def thread_fn(case, i, t):
                     th['inputs'], th.get('plan') or {}, None)
                 try:
                     outs.append(['val', M.describe(norm(
-                        t(client, mapping, **kw)))])
+                        c17.call(t, client, mapping, kw)))])
                 except Exception as e:
                     outs.append(['raise', type(e).__name__,
                                  norm(str(e))[:300]])
